@@ -95,8 +95,6 @@ func main() {
 	// random programs
 	n := ctx.N(6000, 120000)
 	for i := 0; i < n; i++ {
-		g := jqgen.New(r, r.Range(1, 4))
-		src := g.Query()
 		var in any
 		switch r.Intn(4) {
 		case 0:
@@ -106,11 +104,25 @@ func main() {
 		default:
 			in = common.RandValue(r, common.GenOpts{Floats: r.Chance(1, 4), BigInts: r.Chance(1, 5), MaxDepth: 3, MaxWidth: 3, SmallKeys: true}, 0)
 		}
-		add(src, in, "random")
+		switch r.Intn(10) {
+		case 0, 1:
+			// naive (type-blind) programs: exercise error paths
+			add(jqgen.New(r, r.Range(1, 4)).Query(), in, "random-naive")
+		case 2:
+			// typed program with a type-blind sub-program spliced in
+			g := jqgen.NewTyped(r, r.Range(1, 3))
+			a, _ := g.Gen(jqgen.TypeOf(in))
+			b := jqgen.New(r, r.Range(0, 2)).Query()
+			add(common.Pick(r, []string{a + " | " + b, "[" + a + "] | map(try (" + b + ") catch \"E\")", "(" + a + "), (" + b + ")", "try (" + a + " | " + b + ") catch .", "[(" + a + ") as $x | $x | " + b + "]?"}), in, "random-mixed")
+		default:
+			g := jqgen.NewTyped(r, r.Range(1, 5))
+			src, _ := g.Gen(jqgen.TypeOf(in))
+			add(src, in, "random-typed")
+		}
 	}
 
 	st := ctx.NewStream("eval", "Gojq.Spec.eval (Model/Spec.lean) with natives of Model/Native.lean and the generated builtin.jq AST",
-		"(program, input) pairs: cli/test.yaml queries on their inputs, hand-picked probes of the property's nestings, all programs `atom op atom` over a 10-atom alphabet (exhaustive), wrapped triples, random core-grammar programs (depth ≤ 4) × universe/random inputs; programs that fail to parse/compile or exceed the step budget are not compared; distinct = distinct implementation answers")
+		"(program, input) pairs: cli/test.yaml queries on their inputs, hand-picked probes of the property's nestings, all programs `atom op atom` over a 10-atom alphabet (exhaustive), wrapped triples, random programs × universe/random inputs: 70% type-directed against the input's inferred type (≈1% end in a type error), 20% type-blind (≈80% end in an error), 10% mixed; programs that fail to parse/compile or exceed the step budget are not compared; distinct = distinct implementation answers")
 	var lines, impl, labels []string
 	codeCache := map[string]*gojq.Code{}
 	astCache := map[string]string{}
